@@ -11,7 +11,7 @@ use serde::{Deserialize, Serialize};
 use serde_json::json;
 use std::collections::HashMap;
 
-pub const RULE: &str = "operation sequences over Insert(key, depth, bound, score, move; age = current generation, as the search does) / Probe(key) / NewSearch(x1..300) / Reset / Resize(mb) on TranspositionTable<SearchTranspositionTableData> of 0, 1, 2, 3 MB (thorough: also 64 and 1024). Keys are constructed to collide: key = slot + mult * entries for a few chosen slots, with multipliers that make the colliding keys differ only in low bits, only above bit 32 or only above bit 48, plus a few random keys. Reference model: slot -> set of admissible entries with the true (unbounded) search counter: a probe may return data only for exactly the stored key and then exactly the model's entry; entries of earlier searches always give way; within one search an exact entry is displaced only by an exact or deeper one; where the statement is silent (non-exact old entry, same search, new not deeper and not exact) both outcomes are kept and narrowed by the next observation; Reset and size-changing Resize empty the table (every probe misses, occupied == 0); occupied equals the model's count and occupancy() = floor(1000*occupied/entries) +- 1; no panic for any size or number of searches. A 'fill_indicator' part checks occupancy() at every 1/64 fill level (and around 2^32/1000 occupied slots) of tables from 1 to 256 MB (thorough: to 1024 MB). A 'big_table_edges' part runs the same model-based sequences (with many Resets) on tables of 128-500 MB whose sizes are not powers of two, with keys in the last and first slots and next to the 64 MB block boundaries. A 'new_game_after_many_searches' part runs 1-513 real searches (counts around 256 and 512 weigh most) on one search state, calls the engine's reset (what ucinewgame does) and demands an empty table. Non-trivial = sequence with a same-slot different-key insert and a NewSearch between colliding inserts; distinct by op list.";
+pub const RULE: &str = "operation sequences over Insert(key, depth, bound, score, move; age = current generation, as the search does) / Probe(key) / NewSearch(x1..300) / Reset / Resize(mb) on TranspositionTable<SearchTranspositionTableData> of 0, 1, 2, 3 MB (thorough: also 4 and 7; 128-1024 MB tables in the parts big_table_edges and ops_1024mb). Keys are constructed to collide: key = slot + mult * entries for a few chosen slots, with multipliers that make the colliding keys differ only in low bits, only above bit 32 or only above bit 48, plus a few random keys. Reference model: slot -> set of admissible entries with the true (unbounded) search counter: a probe may return data only for exactly the stored key and then exactly the model's entry; entries of earlier searches always give way; within one search an exact entry is displaced only by an exact or deeper one; where the statement is silent (non-exact old entry, same search, new not deeper and not exact) both outcomes are kept and narrowed by the next observation; Reset and size-changing Resize empty the table (every probe misses, occupied == 0); occupied equals the model's count and occupancy() = floor(1000*occupied/entries) +- 1; no panic for any size or number of searches. A 'fill_indicator' part checks occupancy() at every 1/64 fill level (and around 2^32/1000 occupied slots) of tables from 1 to 256 MB (thorough: to 1024 MB). A 'big_table_edges' part runs the same model-based sequences (with many Resets) on tables of 128-500 MB whose sizes are not powers of two, with keys in the last and first slots and next to the 64 MB block boundaries. A 'new_game_after_many_searches' part runs 1-513 real searches (counts around 256 and 512 weigh most) on one search state, calls the engine's reset (what ucinewgame does) and demands an empty table. Non-trivial = sequence with a same-slot different-key insert and a NewSearch between colliding inserts; distinct by op list.";
 
 #[derive(Serialize, Deserialize, Clone, Debug, PartialEq)]
 pub enum Op {
@@ -85,9 +85,9 @@ fn entries_for(mb: u16) -> u64 {
 pub fn sizes(tier: Tier) -> Vec<u16> {
     match tier {
         Tier::Quick => vec![0, 1, 1, 2, 3],
-        // (64 MB tables cost 30 ms per allocation or reset: one case in sixteen; large tables have their
-        // own part, big_table_edges)
-        Tier::Thorough => vec![0, 1, 1, 2, 3, 2, 3, 0, 1, 2, 3, 1, 2, 3, 1, 64],
+        // (large tables have their own parts: big_table_edges, fill_indicator, ops_1024mb; a 64 MB table
+        // costs 30-100 ms per allocation or reset, which made this part take more than an hour)
+        Tier::Thorough => vec![0, 1, 1, 2, 3, 2, 3, 4, 7],
     }
 }
 
